@@ -22,6 +22,9 @@ Extract/C11x.vos Extract/C11x.vok Extract/C11x.required_vos: Extract/C11x.v Mode
 Extract/C12x.vo Extract/C12x.glob Extract/C12x.v.beautified Extract/C12x.required_vo: Extract/C12x.v Model/LexSink.vo Spec/C12Judge.vo
 Extract/C12x.vio: Extract/C12x.v Model/LexSink.vio Spec/C12Judge.vio
 Extract/C12x.vos Extract/C12x.vok Extract/C12x.required_vos: Extract/C12x.v Model/LexSink.vos Spec/C12Judge.vos
+Extract/C13x.vo Extract/C13x.glob Extract/C13x.v.beautified Extract/C13x.required_vo: Extract/C13x.v Model/HirDb.vo
+Extract/C13x.vio: Extract/C13x.v Model/HirDb.vio
+Extract/C13x.vos Extract/C13x.vok Extract/C13x.required_vos: Extract/C13x.v Model/HirDb.vos
 Extract/C14x.vo Extract/C14x.glob Extract/C14x.v.beautified Extract/C14x.required_vo: Extract/C14x.v Model/LspText.vo Spec/C14.vo
 Extract/C14x.vio: Extract/C14x.v Model/LspText.vio Spec/C14.vio
 Extract/C14x.vos Extract/C14x.vok Extract/C14x.required_vos: Extract/C14x.v Model/LspText.vos Spec/C14.vos
@@ -61,6 +64,9 @@ Model/Fb.vos Model/Fb.vok Model/Fb.required_vos: Model/Fb.v
 Model/FmtEdit.vo Model/FmtEdit.glob Model/FmtEdit.v.beautified Model/FmtEdit.required_vo: Model/FmtEdit.v 
 Model/FmtEdit.vio: Model/FmtEdit.v 
 Model/FmtEdit.vos Model/FmtEdit.vok Model/FmtEdit.required_vos: Model/FmtEdit.v 
+Model/HirDb.vo Model/HirDb.glob Model/HirDb.v.beautified Model/HirDb.required_vo: Model/HirDb.v 
+Model/HirDb.vio: Model/HirDb.v 
+Model/HirDb.vos Model/HirDb.vok Model/HirDb.required_vos: Model/HirDb.v 
 Model/Io.vo Model/Io.glob Model/Io.v.beautified Model/Io.required_vo: Model/Io.v 
 Model/Io.vio: Model/Io.v 
 Model/Io.vos Model/Io.vok Model/Io.required_vos: Model/Io.v 
@@ -133,6 +139,9 @@ Proofs/C11Proofs.vos Proofs/C11Proofs.vok Proofs/C11Proofs.required_vos: Proofs/
 Proofs/C12Proofs.vo Proofs/C12Proofs.glob Proofs/C12Proofs.v.beautified Proofs/C12Proofs.required_vo: Proofs/C12Proofs.v Model/LexSink.vo
 Proofs/C12Proofs.vio: Proofs/C12Proofs.v Model/LexSink.vio
 Proofs/C12Proofs.vos Proofs/C12Proofs.vok Proofs/C12Proofs.required_vos: Proofs/C12Proofs.v Model/LexSink.vos
+Proofs/C13Proofs.vo Proofs/C13Proofs.glob Proofs/C13Proofs.v.beautified Proofs/C13Proofs.required_vo: Proofs/C13Proofs.v Model/HirDb.vo
+Proofs/C13Proofs.vio: Proofs/C13Proofs.v Model/HirDb.vio
+Proofs/C13Proofs.vos Proofs/C13Proofs.vok Proofs/C13Proofs.required_vos: Proofs/C13Proofs.v Model/HirDb.vos
 Proofs/C14Proofs.vo Proofs/C14Proofs.glob Proofs/C14Proofs.v.beautified Proofs/C14Proofs.required_vo: Proofs/C14Proofs.v Model/LspText.vo Spec/C14.vo
 Proofs/C14Proofs.vio: Proofs/C14Proofs.v Model/LspText.vio Spec/C14.vio
 Proofs/C14Proofs.vos Proofs/C14Proofs.vok Proofs/C14Proofs.required_vos: Proofs/C14Proofs.v Model/LspText.vos Spec/C14.vos
@@ -202,6 +211,9 @@ Properties/C11.vos Properties/C11.vok Properties/C11.required_vos: Properties/C1
 Properties/C12.vo Properties/C12.glob Properties/C12.v.beautified Properties/C12.required_vo: Properties/C12.v Model/LexSink.vo Proofs/C12Proofs.vo
 Properties/C12.vio: Properties/C12.v Model/LexSink.vio Proofs/C12Proofs.vio
 Properties/C12.vos Properties/C12.vok Properties/C12.required_vos: Properties/C12.v Model/LexSink.vos Proofs/C12Proofs.vos
+Properties/C13.vo Properties/C13.glob Properties/C13.v.beautified Properties/C13.required_vo: Properties/C13.v Model/HirDb.vo Proofs/C13Proofs.vo
+Properties/C13.vio: Properties/C13.v Model/HirDb.vio Proofs/C13Proofs.vio
+Properties/C13.vos Properties/C13.vok Properties/C13.required_vos: Properties/C13.v Model/HirDb.vos Proofs/C13Proofs.vos
 Properties/C14.vo Properties/C14.glob Properties/C14.v.beautified Properties/C14.required_vo: Properties/C14.v Model/LspText.vo Spec/C14.vo Proofs/C14Proofs.vo
 Properties/C14.vio: Properties/C14.v Model/LspText.vio Spec/C14.vio Proofs/C14Proofs.vio
 Properties/C14.vos Properties/C14.vok Properties/C14.required_vos: Properties/C14.v Model/LspText.vos Spec/C14.vos Proofs/C14Proofs.vos
